@@ -18,7 +18,7 @@ fn meaning(ch: &mut Choices, case: &mut Case) -> Result<(), String> {
         dense: ch.chance(65),
         canonical_pct: ch.pick(&[85, 60, 100, 0]),
         max_day_offset: 30,
-        long_pct: 2,
+        long_pct: 3,
         repeat_pct: 6,
         ..Cfg::default()
     };
